@@ -39,13 +39,21 @@ CORE = ["apply", "bind_res", "switch_disp", "switch_branch", "case_cond", "coale
 JUNK = [{"ZZ": 1}, {"ZZ": {"K": "{A}"}, "YY": [1]}]
 
 
+def _leaves(depth, tier):
+    return cat.QUICK2_LEAVES if (tier == "quick" and depth >= 2) else None
+
+
+def _tier_of(case):
+    return "thorough" if "thorough" in case else "quick"
+
+
 def cases(tier, seed):
     out = []
     plan = [(0, None), (1, None), (2, None)]
     if tier == "thorough":
         plan.append((3, CORE))
     for depth, ctxs in plan:
-        n = sum(1 for _ in cat.catalogue(depth, None, ctxs))
+        n = sum(1 for _ in cat.catalogue(depth, _leaves(depth, tier), ctxs))
         for a in range(0, n, 30):
             out.append(("batch", depth, ctxs, a, min(n, a + 30), tier))
     out.append(("seeds",))
@@ -235,7 +243,7 @@ def run_case(case):
         res["samples"].append({"hash_seed_digest": base, "fingerprints": n, "with_more_than_one_key": multi, "seeds": ["0", "1", "2", "random"]})
         return res
     _, depth, ctxs, a, b = case[:5]
-    for label, term, spec in itertools.islice(cat.catalogue(depth, None, ctxs), a, b):
+    for label, term, spec in itertools.islice(cat.catalogue(depth, _leaves(depth, _tier_of(case)), ctxs), a, b):
         dicts = cat.dictionaries(spec)
         # quick tier: junk-key and key-order perturbations on terms of depth <= 1 only (depth 2 keeps
         # present-only, sufficiency, restriction and the all-pairs fingerprint function)
